@@ -4,6 +4,7 @@
    Engine/DbTables.v (key_names / rule_results / info with the two id caches, the version gate of open(), the
    exclusive-transaction lock), Engine/Restart.v (restart simulation over the specification engine). *)
 From LLB Require Import Base.Bytes Codec.DepBlob Codec.DepBlobProofs Engine.DbTables Engine.DbTablesProofs.
+From LLB Require Import Engine.Rules Engine.Spec Engine.Exec Engine.SpecOnceFrame Engine.Restart Engine.RestartProofs.
 Local Open Scope N_scope.
 
 (* ---- the dependency blob ---- *)
@@ -101,3 +102,35 @@ Print Assumptions c03_lock_second_start_fails.
 Theorem c03_lock_blocks_writer : forall l c c' t k r, In c' l -> c <> c' -> db_write l c t k r = None.
 Proof. exact lock_blocks_writer. Qed.
 Print Assumptions c03_lock_blocks_writer.
+
+(* ---- database transparency over the specification engine ---- *)
+
+(* [Rb s1 s2] (Engine/Restart.v): same database, iteration, epoch, no interruption flags; for every key the memory
+   results agree on value, signature, computedAt and dependencies up to dropped single-use entries; builtAt of s2 is
+   <= the one of s1 and no recorded non-order-only dependency was computed in the gap; builtAt <= epoch; and the
+   two sides have completed the same rules in the current epoch.  From related states [ensure] has the same outcome,
+   logs the same new events (same executions, same reasons, same values) and ends in related states. *)
+Theorem c03_ensure_simulation : forall rules env F order fuel stack s1 s2 k, Rb s1 s2 ->
+  (forall s1', ensure rules env F order fuel stack s1 k = Ok s1' ->
+     exists s2', ensure rules env F order fuel stack s2 k = Ok s2' /\ Rb s1' s2' /\ new_log s1 s1' = new_log s2 s2') /\
+  (forall s1' p, ensure rules env F order fuel stack s1 k = Cycle s1' p ->
+     exists s2', ensure rules env F order fuel stack s2 k = Cycle s2' p /\ Rb s1' s2' /\ new_log s1 s1' = new_log s2 s2') /\
+  (ensure rules env F order fuel stack s1 k = OutOfFuel -> ensure rules env F order fuel stack s2 k = OutOfFuel).
+Proof. exact ensure_simulation. Qed.
+Print Assumptions c03_ensure_simulation.
+
+(* one whole build, between build boundaries (relation R: Rb without the same-epoch clause) *)
+Theorem c03_build_simulation : forall rules env F order fuel s1 s2 k, R s1 s2 ->
+  osimR s1 s2 (build rules env F order fuel s1 k) (build rules env F order fuel s2 k).
+Proof. exact build_sim. Qed.
+Print Assumptions c03_build_simulation.
+
+(* the literal statement (a restart inserted at ANY build boundary) fails in the history model when a rule edit is
+   pending, because a new engine instance is also what activates pending rule edits *)
+Theorem c03_restart_with_pending_edit_refuted :
+  exists ops ops',
+    ops = [ORule 1 (mkRule 5 false [] [] [] None []); OBuild 1] /\
+    ops' = [ORule 1 (mkRule 5 false [] [] [] None []); ORestart true; OBuild 1] /\
+    observed (run_history mixF ord_id 10 ops) <> observed (run_history mixF ord_id 10 ops').
+Proof. exact restart_with_pending_edit_refuted. Qed.
+Print Assumptions c03_restart_with_pending_edit_refuted.
